@@ -26,6 +26,7 @@ type SpecEnv struct {
 	vars    map[string]Value
 	assume  bool // true: formula is being assumed (foralls become lazy), false: proved (skolemised)
 	neg     bool // polarity flipped
+	ambig   bool // inside an operand of ==, !=, iff or an ite condition: no definite polarity
 	ctx     *Term
 	skolems []*Term
 	pkg     *types.Package
@@ -380,7 +381,9 @@ func (env *SpecEnv) binary(x *ast.BinaryExpr) Value {
 		env.skolems = append(env.skolems, n.skolems[len(env.skolems):]...)
 		return Sc{Or(a, b), tBool}
 	}
-	a, b := unify(env.eval(x.X), env.eval(x.Y))
+	amb := *env
+	amb.ambig = true
+	a, b := unify(amb.eval(x.X), amb.eval(x.Y))
 	if x.Op == token.SHL || x.Op == token.SHR {
 		sa, sb := a.(Sc), b.(Sc)
 		if sb.Ty == untypedInt {
@@ -868,6 +871,23 @@ func (ex *Exec) pureCall(env *SpecEnv, fn *ssa.Function, args []Value) Value {
 	if sf := ex.P.specFuncs[fn.String()]; sf != nil {
 		return sf(env, args)
 	}
+	// a function whose contract says `pure`: the same uninterpreted function of the argument
+	// leaves that applyContract equates call results with (scalar results only)
+	if ct := ex.P.contractOf(fn); ct != nil && ct.Pure {
+		rs := fn.Signature.Results()
+		if rs.Len() != 1 {
+			specErr("pure function %s in a specification: exactly one result expected", fn)
+		}
+		var argLeaves []*Term
+		for _, a := range args {
+			argLeaves = append(argLeaves, flatten(a)...)
+		}
+		zr := flatten(zeroValue(rs.At(0).Type()))
+		if len(zr) != 1 {
+			specErr("pure function %s in a specification: scalar result expected", fn)
+		}
+		return Sc{App(fmt.Sprintf("pure|%s:%s|%d", ct.Pkg, ct.FnName, 0), zr[0].Sort, argLeaves...), rs.At(0).Type()}
+	}
 	ex.noObl++
 	defer func() { ex.noObl-- }()
 	st := env.st.clone()
@@ -888,6 +908,21 @@ func (ex *Exec) pureCall(env *SpecEnv, fn *ssa.Function, args []Value) Value {
 
 func (env *SpecEnv) special(name string, x *ast.CallExpr) (Value, bool) {
 	switch name {
+	case "caller":
+		// in an at_call clause: the caller's own parameter or local of that name, where a
+		// parameter of the callee shadows it
+		n := *env
+		n.vars = map[string]Value{}
+		if env.fr != nil {
+			if id, ok := x.Args[0].(*ast.Ident); ok {
+				if c := env.fr.namedCell(id.Name, env.st); c == nil {
+					if v, ok := env.ex.callerParams[id.Name]; ok {
+						return v, true
+					}
+				}
+			}
+		}
+		return n.eval(x.Args[0]), true
 	case "old":
 		if env.old == nil {
 			specErr("old() not available here")
@@ -909,11 +944,15 @@ func (env *SpecEnv) special(name string, x *ast.CallExpr) (Value, bool) {
 		env.skolems = append(env.skolems, n.skolems[len(env.skolems):]...)
 		return Sc{Implies(a, b), tBool}, true
 	case "iff":
-		a := env.evalBool(x.Args[0])
-		b := env.evalBool(x.Args[1])
+		amb := *env
+		amb.ambig = true
+		a := amb.evalBool(x.Args[0])
+		b := amb.evalBool(x.Args[1])
 		return Sc{Eq(a, b), tBool}, true
 	case "ite":
-		c := env.evalBool(x.Args[0])
+		amb := *env
+		amb.ambig = true
+		c := amb.evalBool(x.Args[0])
 		a, b := unify(env.eval(x.Args[1]), env.eval(x.Args[2]))
 		return iteValue(c, a, b), true
 	case "forall", "exists":
@@ -1181,6 +1220,9 @@ func (env *SpecEnv) quantKey(kind string, x *ast.CallExpr) Value {
 		w := env.coerce(env.eval(x.Args[3]), mt.Key())
 		return Sc{bodyAt(env, keyTerm(w)), tBool}
 	}
+	if env.ambig {
+		specErr("quantifier %s occurs under ==, !=, iff or an ite condition, where it has no definite polarity: write two implications", exprStr(x))
+	}
 	assertedPos := env.assume != env.neg
 	effUniversal := isForall == assertedPos
 	if !effUniversal {
@@ -1246,6 +1288,9 @@ func (env *SpecEnv) quant(kind string, x *ast.CallExpr) Value {
 	_ = universal
 	// polarity of this subformula in the formula that is finally asserted to the solver:
 	// an assumed clause is asserted as is, a goal is asserted negated.
+	if env.ambig {
+		specErr("quantifier %s occurs under ==, !=, iff or an ite condition, where it has no definite polarity: write two implications", exprStr(x))
+	}
 	assertedPos := env.assume != env.neg
 	effUniversal := (kind == "forall") == assertedPos
 	if !effUniversal {
